@@ -145,6 +145,16 @@ def classify_while(ctx: Ctx, f: Func, loop: ast.While) -> Tuple[str, str]:
         breaks = [n for n in body_nodes if isinstance(n, (ast.Break, ast.Return))]
         if reads and breaks and _every_iteration_passes(f, loop, reads):
             return "V3", f"every iteration performs a consuming read ({attr_tail(reads[0])}) that raises at EOF; exits on a terminator"
+        # V3b: every iteration reads a fixed positive number of bytes into X and raises when fewer came (`if len(X) < n: raise`): the stream is
+        # finite, so the loop ends at a terminator or with that error
+        raw = [n for n in loop.body if isinstance(n, ast.Assign) and isinstance(n.targets[0], ast.Name) and isinstance(n.value, ast.Call) and attr_tail(n.value) == "read"
+               and n.value.args and isinstance(n.value.args[0], ast.Constant) and isinstance(n.value.args[0].value, int) and n.value.args[0].value > 0]
+        for a in raw:
+            x, width = a.targets[0].id, a.value.args[0].value
+            short = [t for t in loop.body if isinstance(t, ast.If) and isinstance(t.test, ast.Compare) and norm(t.test) in (f"len({x}) < {width}", f"len({x}) != {width}", f"len({x}) == 0")
+                     and any(isinstance(y, ast.Raise) for y in t.body)]
+            if short and breaks and _every_iteration_passes(f, loop, [a]):
+                return "V3", f"every iteration reads {width} byte(s) and raises on a short read; exits on a terminator"
         # daemon consumer with sentinel
         return "", "while True loop without a consuming read on every iteration"
     # V6: `while 0 < len(D) < bound:` ; body: M = read(...); if len(M) == 0: break; D += M   (D grows by >= 1 byte per iteration towards the bound)
